@@ -659,7 +659,7 @@ theorem execMethodSize_good (c : Ctx) {item : ItemK} (hI : GoodI item) (s : St) 
   split
   · exact executeNextItem_good c hI _ _ _ _
   · split
-    · exact returnVerboseError_good (Mid.refl s) (Shape.refl f)
+    · exact structural_good (Mid.refl s) (Shape.refl f)
     · exact executeNextItem_good c hI _ _ _ _
 
 theorem execConvMethod_good (c : Ctx) {item : ItemK} {any : AnyK} (hI : GoodI item) (hA : GoodA any) (s : St)
@@ -1111,7 +1111,7 @@ theorem execArrayIndex_good (c : Ctx) {item : ItemK} (hI : GoodI item) (s : St) 
   unfold execArrayIndex
   try dsimp only
   split
-  · exact returnVerboseError_good (Mid.refl s) (Shape.refl f)
+  · exact structural_good (Mid.refl s) (Shape.refl f)
   · rename_i xs _
     have hinv : IInv s f (subs.foldl (indexSubStep c item nx xs v)
         ⟨{ s with innermost := xs.length }, f, .notFound, none, none⟩) := by
